@@ -359,6 +359,10 @@ fn check_history(report: &Report, rt: &Arc<tokio::runtime::Runtime>, hist: &[H])
 }
 
 pub fn run(opts: Opts) -> i32 {
+    if let Some(spec) = opts.extra.iter().find_map(|a| a.strip_prefix("race=")) {
+        let spec = spec.to_string();
+        return crate::race::worker(opts, "C09", "exploration", &spec);
+    }
     let report = Report::new("C09", "exploration", opts.clone());
     if let Some(path) = &opts.replay {
         report.replay_by_re_enumeration(path);
@@ -425,5 +429,24 @@ pub fn run(opts: Opts) -> i32 {
         check_history(&report, rt, h);
         report.eval(Some(&h));
     });
+    // engine S at system-call granularity: an auto compaction racing ONE append; what it plans and
+    // creates must be what one of the two sequential orders plans and creates, and the log and the
+    // caches must be sound afterwards
+    {
+        use crate::race::{job, Pre, Reader, Writer};
+        let tier = report.tier();
+        let t = tier.as_str();
+        let cap = report.opts.wall_cap_s;
+        let mut jobs = vec![job(t, "c09", cap, Pre::OpenTurn, Reader::AutoCompaction, Writer::Message, 1)];
+        if tier == crate::common::Tier::Thorough {
+            for pre in [Pre::OpenTurn, Pre::OpenTurnNoCaches, Pre::LongWithCheckpoint] {
+                for w in [Writer::Message, Writer::RunEnded, Writer::SideEffect, Writer::Cursor] {
+                    jobs.push(job(t, "c09", cap, pre, Reader::AutoCompaction, w, 1));
+                }
+            }
+        }
+        report.set_extra("race_configs", json!(jobs.len()));
+        crate::common::run_workers(&report, jobs, 16, &crate::race::shim_env());
+    }
     report.finish()
 }
